@@ -69,7 +69,10 @@ func parseUsemtlLine(components []string) (string, error) {
 
 func parseGroupLine(components []string) (string, error) {
 	if len(components) == 1 {
-		return "", errors.New("g line is empty")
+		// A bare "g" is valid OBJ and selects the default (unnamed) group.
+		// WriteMeshes emits exactly that for an unnamed mesh that is saved
+		// together with others, so rejecting it made such files unreadable.
+		return "", nil
 	}
 
 	return strings.Join(components[1:], " "), nil
